@@ -67,7 +67,8 @@ def judge(path):
             out["distinct"].add((op, min(n, 6) if n < 200 else 200 if n < 256 else 256 if n < 1024 else 1024, min(sum(i["bad"] for i in items), 3), set_err, exp_ret if exp_ret < 4 else 4))
             if op > 5 and op != 12 and ret != exp_ret:
                 viol("return:%s" % OPS[op], "returned %d, list model says %d" % (ret, exp_ret), ev)
-            obs = [(u, (KID.get(k) if k in KID else ("bad-%d" % u if k == 3 else None)), e) for u, k, e in its]
+            # a flagged item that owns key material (odd ids: non-string alg) may or may not have had its kid parsed: identified by its key bytes
+            obs = [(u, (KID.get(k) if k in KID else ("bad-%d" % u if (k == 3 or (k == -1 and e == 1 and u % 2 == 1)) else None)), e) for u, k, e in its]
             mod = [(i["uid"], i["kid"], i["bad"]) for i in items]
             if count != len(items):
                 viol("count:%s" % OPS[op], "jwks_item_count %d, model %d" % (count, len(items)), ev)
